@@ -241,6 +241,37 @@ theorem c18_kwargs_history_setdefault_counterexample : ¬ c18_kwargs_history_set
 
 example : kwHistory kwCall (some 9) [3, 0, 7, 7, 1] = [some 3, none, some 7, some 7, some 1] := by decide
 
+/-! ### the cached candidate table across `change_shg_mgr` -/
+
+/-- **invariant**: the constructor and every operation leave "cached table = table of the manager in force" -/
+theorem c18_cache_invariant (s : GenSt) (h : s.cached = s.mgr) (op : GenOp) :
+    (genStep s op).1.cached = (genStep s op).1.mgr := by
+  cases op <;> simp [genStep, h]
+
+/-- **refinement**: for every history of `generate_signal_events` / `mu2flux` / `change_shg_mgr` calls on one
+generator object, each call works with the candidates of the source hypothesis groups in force at that moment
+(no stale table, weight sum or CDF). -/
+theorem c18_cache_fresh (ops : List GenOp) (s : GenSt) (h : s.cached = s.mgr) :
+    genRun genStep s ops = genSpec s.mgr ops := by
+  induction ops generalizing s with
+  | nil => rfl
+  | cons op ops ih =>
+    cases op with
+    | use => simp only [genRun, genSpec, genStep, h]; rw [ih s h]
+    | changeMgr m => simp only [genRun, genSpec, genStep]; rw [ih ⟨m, m⟩ rfl]
+
+def c18_cache_fresh_stale_statement : Prop :=
+  ∀ (ops : List GenOp) (s : GenSt), s.cached = s.mgr → genRun genStepStale s ops = genSpec s.mgr ops
+
+theorem c18_cache_fresh_stale_counterexample : ¬ c18_cache_fresh_stale_statement := by
+  intro h
+  have := h [.changeMgr 1, .use] ⟨0, 0⟩ rfl
+  revert this
+  decide
+
+example : genRun genStep ⟨0, 0⟩ [.use, .changeMgr 1, .use, .changeMgr 0, .changeMgr 1, .use] = [0, 1, 1, 0, 1, 1] := by
+  decide
+
 /-! ## 3. declination bands and candidate table -/
 
 section field
